@@ -10,7 +10,8 @@
    Strings are lists of code points (Z): a label is what Go's `for _, c := range s`
    yields for a valid UTF-8 string; an issued name is ASCII (theorem).
    Definitions only (proofs: NamerProofs.v). *)
-From Coq Require Import List ZArith Bool NArith DecimalN HexadecimalN Decimal Hexadecimal.
+From Coq Require Import List ZArith Bool NArith.
+From Coq Require DecimalN HexadecimalN Decimal Hexadecimal.
 Import ListNotations.
 Open Scope Z_scope.
 
